@@ -91,6 +91,9 @@ fn expect(c: &Case) -> Expect {
             }
             let dims: Vec<(&str, f64)> = dims.into_iter().map(|d| d.unwrap()).collect();
             let with_unit: Vec<&(&str, f64)> = dims.iter().filter(|d| !d.0.is_empty()).collect();
+            if v.iter().any(|x| x.is_nan()) {
+                return Expect::NotJudged;
+            }
             if !with_unit.is_empty() && with_unit.len() != dims.len() {
                 // mixing unitless and unit numbers is not judged
                 return Expect::NotJudged;
@@ -182,7 +185,7 @@ fn expect(c: &Case) -> Expect {
             }
             let f0 = dims[0].1;
             // squares of such magnitudes overflow a double; the naive formula (also dart-sass's) gives infinity
-            if v.iter().any(|x| x.is_finite() && (x.abs() > 1e150 || (*x != 0.0 && x.abs() < 1e-150))) {
+            if v.iter().any(|x| !x.is_finite() || x.abs() > 1e150 || (*x != 0.0 && x.abs() < 1e-150)) {
                 return Expect::NotJudged;
             }
             let h: f64 = v.iter().zip(dims.iter()).map(|(x, d)| x * d.1 / f0).fold(0.0, |a: f64, x| a.hypot(x));
@@ -278,6 +281,26 @@ fn cases() -> impl Strategy<Value = Case> {
     ]
 }
 
+/// every function on every combination of boundary values (unitless), exhaustively
+fn grid() -> Vec<Case> {
+    const B: &[&str] = &["0", "-0", "0.5", "-0.5", "1", "-1", "2", "-2", "1.5", "-1.5", "2.5", "-2.5", "10", "inf", "-inf", "nan", "1e300", "-1e300", "1e-300", "0.9999999999", "3"];
+    let a = |v: &str| Arg { v: v.to_string(), u: String::new() };
+    let mut out = vec![];
+    for f in ["abs", "ceil", "floor", "round", "percentage", "sqrt", "exp", "log", "sin", "cos", "tan", "asin", "acos", "atan"] {
+        for x in B {
+            out.push(Case { f: f.into(), args: vec![a(x)] });
+        }
+    }
+    for f in ["pow", "log", "atan2", "div", "hypot", "min", "max"] {
+        for x in B {
+            for y in B {
+                out.push(Case { f: f.into(), args: vec![a(x), a(y)] });
+            }
+        }
+    }
+    out
+}
+
 impl Prop for C29 {
     type Case = Case;
     const ID: &'static str = "C29";
@@ -285,13 +308,13 @@ impl Prop for C29 {
         C29
     }
     fn rule(&self) -> String {
-        "calls of math.abs/ceil/floor/round/percentage/div/min/max/clamp/pow/sqrt/log/exp/sin/cos/tan/asin/acos/atan/atan2/hypot with random decimals, ties (+-0.5, +-1.5, +-2.5), 0, -0, values next to 1, 1e+-300, +-infinity and NaN, carrying no unit, the proper unit class (lengths px in pt cm, angles deg grad rad turn), convertible units, and improper or incompatible units. Oracle: f64 reference (round half away from zero; trig in radians after converting the angle; inverse trig in deg), compared at tolerance max(1e-9 relative, 2e-10 absolute) on the value printed by inspect() at precision 10; abs/ceil/floor/round/hypot keep the unit; min/max/clamp must return one of their arguments (the reference one after conversion, ties accepted); unit-carrying input to pow/sqrt/log/exp, non-angles to trig and incompatible units are errors. Non-trivial: an argument with a unit, a tie, or a non-finite value; distinct by call".into()
+        "exhaustive grid of 21 boundary values (0, -0, +-0.5, +-1, +-1.5, +-2, +-2.5, 3, 10, +-infinity, NaN, +-1e300, 1e-300, 0.9999999999) through every unary function and every pair through pow/log/atan2/div/hypot/min/max; random calls of math.abs/ceil/floor/round/percentage/div/min/max/clamp/pow/sqrt/log/exp/sin/cos/tan/asin/acos/atan/atan2/hypot with random decimals, ties (+-0.5, +-1.5, +-2.5), 0, -0, values next to 1, 1e+-300, +-infinity and NaN, carrying no unit, the proper unit class (lengths px in pt cm, angles deg grad rad turn), convertible units, and improper or incompatible units. Oracle: f64 reference (round half away from zero; trig in radians after converting the angle; inverse trig in deg), compared at tolerance max(1e-9 relative, 2e-10 absolute) on the value printed by inspect() at precision 10; abs/ceil/floor/round/hypot keep the unit; min/max/clamp must return one of their arguments (the reference one after conversion, ties accepted); unit-carrying input to pow/sqrt/log/exp, non-angles to trig and incompatible units are errors. Non-trivial: an argument with a unit, a tie, or a non-finite value; distinct by call".into()
     }
     fn assumptions(&self) -> Vec<String> {
         vec!["not judged: min/max/hypot/atan2 mixing unitless and unit numbers, clamp with min > max, trig of |angle| > 1e6 rad and tan within 1e-6 of a pole, NaN among min/max/clamp arguments".into()]
     }
     fn phases(&self, tier: Tier) -> Vec<Phase<Case>> {
-        vec![Phase::random("calls", cases(), tier.pick(40_000, 2_000_000))]
+        vec![Phase::enumerate("boundary-grid", grid().into_iter()), Phase::random("calls", cases(), tier.pick(40_000, 2_000_000))]
     }
     fn render(&self, c: &Case) -> serde_json::Value {
         serde_json::json!({"call": format!("math.{}({})", c.f, c.args.iter().map(src).collect::<Vec<_>>().join(", ")), "expected": format!("{:?}", expect(c))})
